@@ -332,6 +332,8 @@ assembler_case!(c01_reassembly_mid_message_join, "C01", None, [E | X, B | X, E |
 assembler_case!(c01_reassembly_unfragmented_then_two, "C01", None, [U, B, E], [U, U], [0, 0, 0], [32, 39], "[must] unfragmented message passed through, then a two-fragment message");
 // @verif tier=quick unwind=10 fs=300 unwindset=hashbrown:3,simd_bitmask_impl:17,find_suitable_capacity:4,dealloc_buffer_aligned:2
 assembler_case!(c01_reassembly_never_started, "C01", None, [M, E, U], [U, U], [0, 0, 0], [7], "[must] fragments without a start dropped, unfragmented message still delivered");
+// @verif tier=quick unwind=10 fs=300 unwindset=hashbrown:3,simd_bitmask_impl:17,find_suitable_capacity:4,dealloc_buffer_aligned:2
+assembler_case!(c01_reassembly_stray_end_after_message, "C01", None, [B, E, E], [U, U], [0, 0, 0], [64], "[must] a stray END after a completed message delivers nothing more");
 // @verif tier=thorough unwind=10 fs=300 unwindset=hashbrown:3,simd_bitmask_impl:17,find_suitable_capacity:4,dealloc_buffer_aligned:2
 assembler_case!(c01_heavy_reassembly_two_messages, "C01", None, [B, E, U], [U, U], [0, 0, 0], [64, 7], "[must] two messages in offer order");
 // @verif tier=thorough mem=24 unwind=10 fs=300 unwindset=hashbrown:3,simd_bitmask_impl:17,find_suitable_capacity:4,dealloc_buffer_aligned:2
@@ -831,6 +833,68 @@ fairness_family!(c20_poll_two_images_fairness, 2, 3, [0, 1], [0, 1, 2]);
 fairness_family!(c20_poll_two_images_fairness_twin, 2, 2, [0, 1], [0, 1, 2]);
 // @verif tier=thorough unwind=10 fs=200
 fairness_family!(c20_poll_three_images_fairness, 3, 4, [0, 1, 2], [0, 1, 2, 3]);
+
+/// Starvation: EVERY image has data at EVERY call (the publisher side keeps writing: the subscriber positions are put
+/// back to the start of the term before each call), every call has fragment limit 1. From any rotation state the
+/// starting image must rotate so that n + 1 consecutive calls serve every image at least once.
+fn starvation_leaf(n: usize, sub: &mut Subscription, mem: &Mems, warm: usize, calls: usize) -> bool {
+    let mut i = 0;
+    while i < n {
+        mem.set_words(i, [FRAME, FRAME]);
+        i += 1;
+    }
+    i = 0;
+    while i < warm {
+        idle_poll(sub);
+        i += 1;
+    }
+    let mut ever = [false; 4];
+    let mut call = 0;
+    while call < calls {
+        i = 0;
+        while i < n {
+            unsafe { *(mem.ctr[i] as *mut i64) = 0 }; // image i has its full backlog again
+            i += 1;
+        }
+        let mut seen = Seen::new(mem.bases());
+        seen.begin_call();
+        let r = plain_poll(sub, &mut seen, 1);
+        assert!(r == 1 && seen.first < n, "C20: with data available a call with limit 1 delivers exactly one fragment of a listed image");
+        ever[seen.first] = true;
+        call += 1;
+    }
+    i = 0;
+    let mut all = true;
+    while i < n {
+        assert!(ever[i], "C20: every image is served within n + 1 calls even when the images in front of it ALWAYS have data (the starting image must rotate)");
+        all = all && ever[i];
+        i += 1;
+    }
+    all
+}
+
+macro_rules! starvation_family {
+    ($name:ident, $n:literal, $calls:expr, [$($img:literal),+], [$($warm:literal),+]) => {
+        #[kani::proof]
+        fn $name() {
+            pretouch();
+            mems!(mem);
+            let sessions: [i32; 4] = kani::any();
+            let mut sub = subscription();
+            let mut images = ManuallyDrop::new([$(image(&mem, $img, sessions[$img])),+]);
+            inject(&mut sub, images.as_mut_ptr(), $n);
+            let warm: usize = kani::any();
+            kani::assume(warm <= $n);
+            let o = split!(warm, |w| starvation_leaf($n, &mut sub, &mem, w, $calls), $($warm),+);
+            std::mem::forget(sub);
+            kani::cover!(o, "[must] every image served");
+        }
+    };
+}
+// @verif tier=quick unwind=10 fs=200
+starvation_family!(c20_poll_two_images_no_starvation, 2, 3, [0, 1], [0, 1, 2]);
+// @verif tier=thorough unwind=10 fs=200
+starvation_family!(c20_poll_three_images_no_starvation, 3, 4, [0, 1, 2], [0, 1, 2, 3]);
 
 // ---- a list that shrinks between polls (poll side of remove_image) --------------------------------------------------
 // `remove_image` itself does not fit (see below); what it does to poll is replace the list by a shorter one while the
